@@ -205,9 +205,7 @@ def check_pi(M, rank=None):
             out.append(("zero-entry", "monomial %r keeps a zero exponent" % (mono,)))
         nonint = [v for v in vals if not (isinstance(v, int) or (isinstance(v, float) and v.is_integer())
                                           or (isinstance(v, Fraction) and v.denominator == 1))]
-        if nonint:
-            out.append(("non-integer", "monomial %r has non-integer exponents (comment: 'Make all numbers "
-                                       "integers')" % (mono,)))
+        # (integrality of the exponents is pint's docstring, not the property: not checked)
         neg = sum(1 for v in vals if v < 0)
         pos = sum(1 for v in vals if v > 0)
         if neg > pos:
@@ -449,8 +447,7 @@ def check_registry_case(label, form, regkind):
             continue
         if any(v == 0 for v in mono.values()):
             out.append(("zero-entry", "%r" % (mono,)))
-        if any(_as_fraction(v).denominator != 1 for v in mono.values()):
-            out.append(("non-integer", "%r" % (mono,)))
+        # (integrality of the exponents is not part of the property: not checked)
         if sum(v < 0 for v in mono.values()) > sum(v > 0 for v in mono.values()):
             out.append(("sign", "%r" % (mono,)))
         v = [_as_fraction(mono.get(nm, 0)) for nm in names]
